@@ -684,6 +684,10 @@ func (env *SpecEnv) call(n *ast.CallExpr) *Val {
 		case "isErr":
 			a := env.eval(n.Args[0])
 			b := env.eval(n.Args[1])
+			if _, isIface := under(b.Ty).(*types.Interface); !isIface && !isUntyped(b.Ty) {
+				// a concrete sentinel (syscall.ENOTSUP): boxed exactly like the code does
+				b = x.makeIface(env.st, b, types.Universe.Lookup("error").Type())
+			}
 			return mkBool(x.errorsIs(a.L[0], b.L[0]))
 		case "typeIs":
 			a := env.eval(n.Args[0])
